@@ -11,10 +11,12 @@ class Capture:
     """wraps numpy.random.uniform / choice (and poisson) for the duration of a `with` block; records every result.
     force='zero': the first entry of every uniform block is replaced by 0.0 and the last by 1-2^-53 (draws are inputs)"""
 
-    def __init__(self, force=None):
+    def __init__(self, force=None, poisson_script=None):
         self.force = force
         self.uniform = []
         self.choice = []
+        self.poisson_script = list(poisson_script or [])     # outcomes handed out by numpy.random.poisson, in order (draws are inputs)
+        self.poisson = []
 
     def __enter__(self):
         import numpy as np
@@ -35,11 +37,19 @@ class Capture:
             r = cap.o_c(a, size=size, replace=replace, p=p)
             cap.choice.append(np.array(r).copy())
             return r
-        np.random.uniform, np.random.choice = w_uniform, w_choice
+        self.o_p = np.random.poisson
+
+        def w_poisson(lam=1.0, size=None):
+            r = cap.o_p(lam, size)
+            if cap.poisson_script and size is None:
+                r = int(cap.poisson_script.pop(0))
+            cap.poisson.append((float(lam), int(r)))
+            return r
+        np.random.uniform, np.random.choice, np.random.poisson = w_uniform, w_choice, w_poisson
         return self
 
     def __exit__(self, *exc):
-        self.np.random.uniform, self.np.random.choice = self.o_u, self.o_c
+        self.np.random.uniform, self.np.random.choice, self.np.random.poisson = self.o_u, self.o_c, self.o_p
         return False
 
 
@@ -98,8 +108,17 @@ def run_stratified(a, semi):
     meta = {"total": a["cn"] + a["cz"], "short": (not semi) and size == nnz}
     np.random.seed(a["seed"])
     try:
-        with Capture(a["force"]) as cap:
-            if semi:
+        with Capture(a["force"], [a["cn"], a["cz"]] if a.get("via_poisson") else None) as cap:
+            if a.get("via_poisson") and not semi:
+                # the uniform GRADIENT sampler of a sparse tensor: stratified with Poisson(n*nnz/size), Poisson(n*(size-nnz)/size) counts;
+                # the two Poisson outcomes are inputs (any count can be drawn, also more nonzero samples than nonzeros)
+                g = samplers.GCPSampler(S, gradient_sampler=samplers.Samplers.UNIFORM, gradient_samples=a["via_poisson"])
+                subs, vals, wgts = g.gradient_sample(S)
+                lam_ok = len(cap.poisson) == 2 and abs(cap.poisson[0][0] - a["via_poisson"] * nnz / size) < 1e-9 and \
+                    abs(cap.poisson[1][0] - a["via_poisson"] * (size - nnz) / size) < 1e-9
+                if not lam_ok:
+                    raise AssertionError(f"Poisson rates {cap.poisson}")
+            elif semi:
                 g = samplers.GCPSampler(S, gradient_sampler=samplers.Samplers.SEMISTRATIFIED, gradient_samples=cnt)
                 subs, vals, wgts = g.gradient_sample(S)
             else:
@@ -116,8 +135,11 @@ def run_stratified(a, semi):
     subs_l = [[int(x) for x in r] for r in np.asarray(subs).reshape((-1, nd))]
     stored = {tuple(s) for s in a["subs"]}
     zpart = subs_l[a["cn"]:]
+    # short zero supply (trigger region of the open finding C13-S1) is decided by the INPUTS and the captured draws alone — how many of
+    # the drawn subscripts floor(u*d) are zeros of the data — never by the shape of what came back
+    zero_found = sum(1 for r in draws if tuple((u * d) // D53 for u, d in zip(r, shp)) not in stored)
     meta.update({"zero_draw": any(0 in r for r in draws), "total": len(subs_l) if not semi else a["cn"] + a["cz"],
-                 "short": meta["short"] or ((not semi) and len(zpart) < a["cz"]),
+                 "short": meta["short"] or ((not semi) and zero_found < a["cz"]),
                  "semi_hit": semi and any(tuple(r) in stored for r in zpart)})
     if not semi:
         meta["total"] = a["cn"] + a["cz"]
@@ -160,7 +182,7 @@ def _mk_problem(a):
     import pyttb as ttb
     from pyttb.gcp import samplers
     shp = tuple(a["shape"])
-    arr = np.array(a["data"], dtype=float).reshape(shp, order="F")
+    arr = np.array(a["data"], dtype=float).reshape(shp, order="F") * 2.0 ** a.get("dscale", 0)
     X = ttb.tensor(arr, shp, copy=True)
     if a["sparse"]:
         X = X.to_sptensor()
@@ -169,7 +191,7 @@ def _mk_problem(a):
                                   gradient_samples=samplers.StratifiedCount(num_zeros=a["gs"], num_nonzeros=a["gs"]))
     else:
         smp = samplers.GCPSampler(X, function_samples=max(2, a["fs"]), gradient_samples=max(2, a["gs"]))
-    M0 = ttb.ktensor([np.array(A, dtype=float).reshape((len(A), a["R"])) for A in a["init"]])
+    M0 = ttb.ktensor([_layout(np, np.array(A, dtype=float).reshape((len(A), a["R"])), a.get("layout", "C")) for A in a["init"]])
     return X, M0, smp
 
 
@@ -177,7 +199,7 @@ def _mk_opt(a):
     from pyttb.gcp import optimizers
     cls = {"sgd": optimizers.SGD, "adam": optimizers.Adam, "adagrad": optimizers.Adagrad}[a["opt"]]
     return cls(rate=a["rate"], decay=a["decay"], max_fails=a["max_fails"], epoch_iters=a["epoch_iters"],
-               f_est_tol=(-math.inf if a["tol"] is None else a["tol"]), max_iters=a["max_iters"], printitn=0)
+               f_est_tol=(-math.inf if a["tol"] is None else a["tol"]), max_iters=a["max_iters"], printitn=a.get("printitn", 0))
 
 
 class EstCapture:
@@ -210,8 +232,19 @@ def run_solve(a):
     opt = _mk_opt(a)
     np.random.seed(a["seed"])
     init_copy = [f.copy() for f in M0.factor_matrices]
+    start_ok = True
     with EstCapture() as cap:
-        result, info = opt.solve(M0, X, fh, gh, lb, smp)
+        if a.get("via") == "gcp_opt":
+            import pyttb as ttb
+            ini, given_w = _driver_init(np, ttb, a, M0)
+            data_before = None if a["sparse"] else X.data.copy()
+            result, M0r, info = ttb.gcp_opt(X, a["R"], _driver_objective(a), opt, init=ini, sampler=smp, printitn=a.get("printitn", 0))
+            start_ok = _driver_start_ok(np, a, given_w, M0, M0r, X.full() if a["sparse"] else X) and \
+                (data_before is None or np.array_equal(data_before, X.data)) and \
+                bool(cap.rec) and all(np.array_equal(x, y) for x, y in zip(cap.rec[0][0], M0r.factor_matrices))
+            M0, init_copy = M0r, [f.copy() for f in M0r.factor_matrices]
+        else:
+            result, info = opt.solve(M0, X, fh, gh, lb, smp)
     ests = [v for _, v in cap.rec]
     if any(not math.isfinite(v) for v in ests):
         return {"skip": "non-finite estimate"}
@@ -221,7 +254,7 @@ def run_solve(a):
     return {"ests": [_fr(v) for v in ests], "trace": [_fr(v) for v in info["f_est_trace"]], "n_epoch": int(info["n_epoch"]),
             "nfails": int(opt._nfails), "ret_cands": cands, "lb_ok": bool(mn >= lb),
             "boundary_lb_ok": all(m >= lb for m in bmin), "min_entry": mn,
-            "init_unchanged": all(np.array_equal(x, y) for x, y in zip(init_copy, M0.factor_matrices)),
+            "init_unchanged": start_ok and all(np.array_equal(x, y) for x, y in zip(init_copy, M0.factor_matrices)),
             "step_trace_len": int(len(info["step_trace"]))}
 
 
@@ -277,63 +310,417 @@ def scale_many(A, B):
 
 
 
+# --------------------------------------------------------------------------------------- update-step arithmetic (capture)
+class _NpProxy:
+    """stands in for the name `np` inside pyttb.gcp.optimizers (harness process only): numpy, with sqrt recording its results —
+    the square root is the ORACLE of the exact-rational step models (Alg/C13StepArith.v)"""
+
+    def __init__(self, np, rec):
+        self._np, self._rec = np, rec
+
+    def __getattr__(self, k):
+        return getattr(self._np, k)
+
+    def sqrt(self, x):
+        r = self._np.sqrt(x)
+        self._rec.append((self._np.array(x, dtype=float).copy(), self._np.array(r, dtype=float).copy()))
+        return r
+
+
+def _flatl(np, mats):
+    return [float(v) for m in mats for v in np.asarray(m, dtype=float).ravel()]
+
+
+class StepCapture:
+    """records every update_step / set_failed_epoch of ONE optimizer object: inputs, private state before and after, results,
+    and the square roots computed inside"""
+
+    def __init__(self, opt):
+        self.opt, self.steps, self.fails, self.sq = opt, [], [], []
+
+    def state(self):
+        import numpy as np
+        o = self.opt
+        if hasattr(o, "_m"):
+            return {"m": _flatl(np, o._m), "v": _flatl(np, o._v), "mp": _flatl(np, o._m_prev), "vp": _flatl(np, o._v_prev),
+                    "tot": int(o._total_iterations)}
+        if hasattr(o, "_gnormsum"):
+            return {"gsum": float(o._gnormsum)}
+        return {}
+
+    def __enter__(self):
+        import numpy as np
+        from pyttb.gcp import optimizers
+        self.mod, self.o_np = optimizers, optimizers.np
+        optimizers.np = _NpProxy(np, self.sq)
+        cap, opt = self, self.opt
+        o_update, o_fail = opt.update_step, opt.set_failed_epoch
+
+        def w_update(model, gradient, lower_bound):
+            rec = {"xs": _flatl(np, model.factor_matrices), "gs": _flatl(np, gradient), "nf": int(opt._nfails),
+                   "lb": (None if lower_bound == -np.inf else float(lower_bound)), "before": cap.state()}
+            n_sq = len(cap.sq)
+            out, step = o_update(model, gradient, lower_bound)
+            rec.update({"out": _flatl(np, out), "step": float(step), "after": cap.state(),
+                        "sq_in": [float(v) for x, _ in cap.sq[n_sq:] for v in np.atleast_1d(x).ravel()],
+                        "sq_out": [float(v) for _, r in cap.sq[n_sq:] for v in np.atleast_1d(r).ravel()],
+                        "after_fail": len(cap.fails) > 0 and cap.fails[-1]["at"] == len(cap.steps)})
+            cap.steps.append(rec)
+            return out, step
+
+        def w_fail():
+            b = cap.state()
+            o_fail()
+            cap.fails.append({"before": b, "after": cap.state(), "at": len(cap.steps)})
+        opt.update_step, opt.set_failed_epoch = w_update, w_fail
+        return self
+
+    def __exit__(self, *exc):
+        self.mod.np = self.o_np
+        del self.opt.update_step, self.opt.set_failed_epoch
+        return False
+
+
+def _mk_opt_step(a):
+    from pyttb.gcp import optimizers
+    kw = dict(rate=a["rate"], decay=a["decay"], max_fails=a["max_fails"], epoch_iters=a["epoch_iters"],
+              f_est_tol=-math.inf, max_iters=a["max_iters"], printitn=0)
+    if a["opt"] == "adam":
+        return optimizers.Adam(beta_1=a["beta_1"], beta_2=a["beta_2"], epsilon=a["epsilon"], **kw)
+    return {"sgd": optimizers.SGD, "adagrad": optimizers.Adagrad}[a["opt"]](**kw)
+
+
+def _frs(l):
+    return [_fr(v) for v in l]
+
+
+def _frstate(st):
+    return {k: (v if k == "tot" else (_fr(v) if k == "gsum" else _frs(v))) for k, v in st.items()}
+
+
+def run_step(a):
+    """one stochastic solve with every update step captured; up to four steps (the first two, the first one after a failed
+    epoch, the last) and the first set_failed_epoch are handed to the exact-rational models"""
+    import numpy as np
+    X, M0, smp = _mk_problem(a)
+    fh, gh, lb = _objective(a)
+    opt = _mk_opt_step(a)
+    np.random.seed(a["seed"])
+    with StepCapture(opt) as cap:
+        try:
+            opt.solve(M0, X, fh, gh, lb, smp)
+        except ValueError as ex:
+            if "Infinite gradient" not in str(ex):
+                raise
+    n = len(cap.steps)
+    pick = sorted(set([k for k in (0, 1, n - 1) if 0 <= k < n] + [k for k, st in enumerate(cap.steps) if st["after_fail"]][:1]))
+    steps = []
+    for k in pick:
+        st = cap.steps[k]
+        nums = st["xs"] + st["gs"] + st["out"] + [st["step"]] + st["sq_in"] + st["sq_out"]
+        if not all(math.isfinite(v) for v in nums) or any(not math.isfinite(v) for s_ in (st["before"], st["after"]) for key, val in s_.items()
+                                                           if key != "tot" for v in (val if isinstance(val, list) else [val])):
+            continue
+        steps.append({"k": k, "xs": _frs(st["xs"]), "gs": _frs(st["gs"]), "nf": st["nf"], "lb": None if st["lb"] is None else _fr(st["lb"]),
+                      "before": _frstate(st["before"]), "after": _frstate(st["after"]), "out": _frs(st["out"]), "step": _fr(st["step"]),
+                      "sq_in": _frs(st["sq_in"]), "sq_out": _frs(st["sq_out"]), "after_fail": st["after_fail"]})
+    fails = [{"before": _frstate(f["before"]), "after": _frstate(f["after"])} for f in cap.fails[:1]
+             if all(math.isfinite(v) for s_ in (f["before"], f["after"]) for key, val in s_.items() if key != "tot"
+                    for v in (val if isinstance(val, list) else [val]))]
+    if not steps:
+        return {"skip": "no finite step"}
+    return {"steps": steps, "fails": fails, "nsteps": n, "meta": {"failed_epoch": bool(cap.fails)}}
+
+
+def step_oracle(a, o):
+    """pure Python, floats: every new entry respects the bound and is max(lb, x - d) with d of the sign pyttb's own state implies;
+    SGD / Adagrad: the entry moved against its gradient component (or stayed)"""
+    for st in o["steps"]:
+        lb = None if st["lb"] is None else Fraction(st["lb"])
+        xs, gs, out = [Fraction(v) for v in st["xs"]], [Fraction(v) for v in st["gs"]], [Fraction(v) for v in st["out"]]
+        if not (len(xs) == len(gs) == len(out)):
+            return f"step {st['k']}: {len(xs)} entries, {len(gs)} gradient entries, {len(out)} new entries"
+        for x, g, y in zip(xs, gs, out):
+            if lb is not None and y < lb:
+                return f"step {st['k']}: new factor entry {float(y)} below the lower bound {float(lb)}"
+            if a["opt"] in ("sgd", "adagrad") and (lb is None or x >= lb):
+                if (g > 0 and y > x) or (g < 0 and y < x) or (g == 0 and y != x):
+                    return f"step {st['k']}: entry {float(x)} with gradient {float(g)} moved to {float(y)}"
+    return None
+
+
+# --------------------------------------------------------------------------------------- through the gcp_opt driver
+def _driver_objective(a):
+    """the objective argument of gcp_opt: the Objectives enum where it gives the same handles, else the (f, g, lower bound) tuple"""
+    from pyttb.gcp.handles import Objectives
+    if a["obj"] == "gaussian":
+        return Objectives.GAUSSIAN
+    if a["obj"] == "poisson" and a.get("dscale", 0) >= 0:          # the enum insists on a count tensor
+        return Objectives.POISSON
+    return _objective(a)
+
+
+def _driver_init(np, ttb, a, M0):
+    """the init argument: a ktensor with non-unit weights denoting M0 . w, a list of factor matrices, or "random" """
+    kind = a.get("init_kind", "ktensor")
+    if kind == "random":
+        return "random", None
+    if kind == "list":
+        return [f.copy() for f in M0.factor_matrices], [1.0] * a["R"]
+    w = [float(x) for x in a.get("init_weights", [1.0] * a["R"])][: a["R"]]
+    return ttb.ktensor([f.copy() for f in M0.factor_matrices], np.array(w)), w
+
+
+def _full_brute(shape, R, weights, factors):
+    """the dense array a Kruskal model denotes, F-order list, pure Python floats"""
+    out = []
+    for k in range(math.prod(shape)):
+        sub, r = [], k
+        for d in shape:
+            sub.append(r % d)
+            r //= d
+        m = 0.0
+        for c in range(R):
+            t = float(weights[c])
+            for mode, i in enumerate(sub):
+                t *= float(factors[mode][i][c])
+            m += t
+        out.append(m)
+    return out
+
+
+def _driver_start_ok(np, a, given_w, M0, M0r, X, mask_tensor=None):
+    """initial-guess handling of the driver: the returned initial model has unit weights and denotes the same tensor as the init
+    handed in (a random init is scaled to the norm of the data)"""
+    rows = lambda K: [[[float(v) for v in row] for row in np.asarray(f)] for f in K.factor_matrices]
+    if not all(float(w) == 1.0 for w in M0r.weights):
+        return False
+    got = _full_brute(a["shape"], a["R"], [1.0] * a["R"], rows(M0r))
+    if given_w is None:
+        dat = np.asarray(X.data) if mask_tensor is None else np.asarray(X.data) * np.asarray(mask_tensor.data)   # missing entries count as 0
+        nd = math.sqrt(sum(float(v) ** 2 for v in dat.ravel()))
+        ng = math.sqrt(sum(v * v for v in got))
+        return abs(nd - ng) <= 1e-9 * max(1.0, nd)
+    want = _full_brute(a["shape"], a["R"], given_w, rows(M0))
+    return all(abs(g - w) <= 1e-9 * max(1.0, abs(w)) for g, w in zip(got, want))
+
+
 # --------------------------------------------------------------------------------------- L-BFGS-B wrapper
-def run_lbfgsb(a):
-    """two solves on ONE LBFGSB object (the second must not depend on the first) + what C13 states about the result"""
+LB_OPTION_KEYS = ("maxiter", "maxls", "maxfun", "pgtol", "m", "factr")
+
+
+def lbfgsb_option_corners():
+    """non-default solver options that change scipy's control flow: restricted line searches (abandoned line search: scipy goes
+    back to its previous iterate, which is NOT the last evaluated point), iteration / evaluation budgets of 0..3, a projected
+    gradient tolerance that stops at once, one correction pair, loose / tight factr"""
+    return [{}, {"maxls": 1}, {"maxls": 1}, {"maxls": 1}, {"maxls": 2}, {"maxls": 2}, {"maxls": 3}, {"maxls": 1, "m": 1},
+            {"maxiter": 1}, {"maxiter": 3}, {"maxiter": 0}, {"maxfun": 1}, {"maxfun": 2}, {"maxfun": 3}, {"pgtol": 1e10},
+            {"m": 1, "maxls": 2}, {"factr": 1e16}, {"factr": 10.0, "maxls": 1}, {"maxiter": 1, "maxls": 1}]
+
+
+def _layout(np, A, layout):
+    """the same matrix in another memory layout (C-contiguous, F-contiguous, a non-contiguous view)"""
+    A = np.array(A, dtype=float)
+    if layout == "F":
+        return np.asfortranarray(A)
+    if layout == "view":
+        big = np.zeros((2 * A.shape[0], 2 * A.shape[1]))
+        big[::2, ::2] = A
+        return big[::2, ::2]
+    return np.ascontiguousarray(A)
+
+
+def _lb_problem(a):
     import numpy as np
     import pyttb as ttb
+    shp = tuple(a["shape"])
+    sc = 2.0 ** a.get("dscale", 0)
+    arr = np.array(a["data"], dtype=float).reshape(shp, order="F") * sc
+    X = ttb.tensor(arr, shp, copy=True)
+    isc = 2.0 ** a.get("iscale", 0)
+    facs = [_layout(np, np.array(A, dtype=float).reshape((len(A), a["R"])) * isc, a.get("layout", "C")) for A in a["init"]]
+    M0 = ttb.ktensor(facs)
+    mask = None if a.get("mask") is None else np.array(a["mask"], dtype=float).reshape(shp, order="F")
+    return X, M0, mask
+
+
+def _rows(np, f):
+    return [[_fr(v) for v in row] for row in np.asarray(f)]
+
+
+def _task(info):
+    t = info.get("task", "")
+    return t.decode() if isinstance(t, bytes) else str(t)
+
+
+def _lb_one_solve(np, optimizers, fg, opt, a, seen, user_cb):
+    """one LBFGSB.solve on `opt`; raw observations (factor rows, what scipy got and answered)"""
+    X, M0, mask = _lb_problem(a)
+    fh, gh, lb = _objective(a)
+    init = M0.copy()
+    via, start_ok = a.get("via") == "gcp_opt", True
+    if via:          # the driver normalises the initial guess (C-ordered factors, unit weights) and hands back what it started from
+        import pyttb as ttb
+        np.random.seed(a["seed"])
+        ini, given_w = _driver_init(np, ttb, a, M0)
+        mk = None if mask is None else (ttb.tensor(mask.copy()) if a.get("mask_kind", "tensor") == "tensor" else mask.copy())
+        data_before = X.data.copy()
+        n_before = len(seen)
+        res, M0r, info = ttb.gcp_opt(X, a["R"], _driver_objective(a), opt, init=ini, mask=mk, printitn=a.get("printitn", 0))
+        start_ok = _driver_start_ok(np, a, given_w, M0, M0r, X, mk if isinstance(mk, ttb.tensor) else None) and np.array_equal(data_before, X.data)
+        M0 = init = M0r
+    start_rows = [_rows(np, f) for f in M0.factor_matrices]
+    # scipy first projects the start into the box [lower_bound, inf): "the start" is that projected point (= M0 when feasible)
+    P0 = M0.copy()
+    P0.factor_matrices = [np.maximum(lb, f) for f in M0.factor_matrices]
+    f0 = float(fg.evaluate(P0, X, mask, fh, None))
+    if not via:
+        n_before = len(seen)
+        res, info = opt.solve(init, X, fh, gh, lb, mask)
+    f_end = float(fg.evaluate(res, X, mask, fh, None))
+    rec = seen[-1]
+    nvec = sum(a["shape"]) * a["R"]
+    slots_ok = bool(isinstance(rec["cb"], optimizers.LBFGSB.Monitor) and rec["cb"].callback is user_cb
+                    and rec["slot_during"] is rec["cb"] and not rec["none_passed"]
+                    and rec["approx_grad"] is False and rec["fprime"] is None and len(seen) == n_before + 1
+                    and all(b == (lb, np.inf) for b in rec["bounds"]))
+    return {"f0": _fr(f0), "f_end": _fr(f_end), "final_f": _fr(info["final_f"]), "scipy_f": _fr(rec["final_f"]),
+            "start": start_rows, "weights": [_fr(w) for w in M0.weights], "x0": [_fr(v) for v in rec["x0"]], "nbounds": len(rec["bounds"]),
+            "x": [_fr(v) for v in rec["final_vector"]], "factors": [_rows(np, f) for f in res.factor_matrices],
+            "res_weights": [_fr(w) for w in res.weights],
+            "lb": (None if lb == -np.inf else _fr(lb)), "nvec": nvec, "slots_ok": slots_ok and start_ok,
+            "task": _task(info), "warnflag": int(info.get("warnflag", -1)), "nit": int(info.get("nit", -1)),
+            "cb_calls": int(rec["cb"].iter), "trace_len": int(len(rec["cb"].time_trace)),
+            "init_unchanged": all(np.array_equal(x, y) for x, y in zip(init.factor_matrices, M0.factor_matrices)),
+            "shapes_ok": [f.shape for f in res.factor_matrices] == [f.shape for f in M0.factor_matrices],
+            "abandoned": int(info.get("warnflag", -1)) == 2 and "LNSRCH" in _task(info)}
+
+
+class ScipySpy:
+    """wraps pyttb.gcp.optimizers.fmin_l_bfgs_b in the harness process: records what LBFGSB.solve hands to scipy and what scipy
+    answers (scipy is the oracle of C13_lbfgsb_wrap)"""
+
+    def __init__(self, opt_ref):
+        self.opt_ref = opt_ref
+        self.seen = []
+
+    def __enter__(self):
+        import numpy as np
+        from pyttb.gcp import optimizers
+        self.mod, self.orig = optimizers, optimizers.fmin_l_bfgs_b
+        spy = self
+
+        def wrapped(func, x0, fprime=None, approx_grad=False, bounds=None, **kw):
+            opt = spy.opt_ref[0]
+            rec = {"x0": np.array(x0, dtype=float).copy(), "bounds": list(bounds), "cb": kw.get("callback"),
+                   "slot_during": opt._solver_kwargs.get("callback"), "none_passed": any(v is None for v in kw.values()),
+                   "approx_grad": approx_grad, "fprime": fprime}
+            r = spy.orig(func, x0, fprime=fprime, approx_grad=approx_grad, bounds=bounds, **kw)
+            rec["final_vector"], rec["final_f"] = np.array(r[0], dtype=float).copy(), float(r[1])
+            spy.seen.append(rec)
+            return r
+        optimizers.fmin_l_bfgs_b = wrapped
+        return self
+
+    def __exit__(self, *exc):
+        self.mod.fmin_l_bfgs_b = self.orig
+        return False
+
+
+def _lb_opt(optimizers, opts, user_cb):
+    kw = {k: opts[k] for k in LB_OPTION_KEYS if k in opts}
+    return optimizers.LBFGSB(callback=user_cb, **kw)
+
+
+def _restored(opt, before, user_cb):
+    after = opt._solver_kwargs
+    return bool(after.get("callback") is user_cb and set(after) == set(before)
+                and all(after[k] == before[k] or (after[k] is before[k]) for k in before if k != "callback"))
+
+
+def run_lbfgsb(a):
+    """two identical solves on ONE LBFGSB object (the second must not depend on the first); every float raw"""
+    import numpy as np
     from pyttb.gcp import optimizers, fg
-    q = dict(a)
-    q["sparse"] = False
-    X, M0, _ = _mk_problem(q)
-    fh, gh, lb = _objective(q)
-    mask = None if a["mask"] is None else np.array(a["mask"], dtype=float).reshape(tuple(a["shape"]), order="F")
     calls = []
     user_cb = (lambda xk: calls.append(1)) if a["callback"] else None
-    opt = optimizers.LBFGSB(maxiter=a["maxiter"], callback=user_cb)
+    opt = _lb_opt(optimizers, a.get("opts", {}), user_cb)
     before = dict(opt._solver_kwargs)
-    f0 = float(fg.evaluate(M0, X, mask, fh, None))
     outs = []
-    # what LBFGSB.solve hands to scipy and gets back (scipy is the oracle of C13_lbfgsb_wrap)
-    seen = []
-    orig_scipy = optimizers.fmin_l_bfgs_b
+    with ScipySpy([opt]) as spy:
+        for rep in range(2):
+            outs.append(_lb_one_solve(np, optimizers, fg, opt, a, spy.seen, user_cb))
+    return {"outs": outs, "callback_restored": _restored(opt, before, user_cb),
+            "callback_called": (len(calls) > 0) if a["callback"] else None,
+            "meta": {"abandoned": any(o["abandoned"] for o in outs), "maxiter0": a.get("opts", {}).get("maxiter") == 0}}
 
-    def spy(func, x0, fprime=None, approx_grad=False, bounds=None, **kw):
-        rec = {"x0": np.array(x0, dtype=float).copy(), "bounds": list(bounds), "cb": kw.get("callback"),
-               "slot_during": opt._solver_kwargs.get("callback"), "none_passed": any(v is None for v in kw.values()),
-               "approx_grad": approx_grad, "fprime": fprime}
-        r = orig_scipy(func, x0, fprime=fprime, approx_grad=approx_grad, bounds=bounds, **kw)
-        rec["final_vector"], rec["final_f"] = np.array(r[0], dtype=float).copy(), float(r[1])
-        seen.append(rec)
-        return r
-    optimizers.fmin_l_bfgs_b = spy
-    wrap_ok = True
-    try:
-      for rep in range(2):
-        init = M0.copy()
-        res, info = opt.solve(init, X, fh, gh, lb, mask)
-        f_end = float(fg.evaluate(res, X, mask, fh, None))
-        rec = seen[-1]
-        nvec = sum(a["shape"]) * a["R"]
-        wrap_ok = wrap_ok and bool(
-            len(rec["x0"]) == nvec and np.array_equal(rec["x0"], M0.tovec(False))
-            and rec["bounds"] == [(lb, np.inf)] * nvec
-            and isinstance(rec["cb"], optimizers.LBFGSB.Monitor) and rec["cb"].callback is user_cb
-            and rec["slot_during"] is rec["cb"] and not rec["none_passed"]
-            and rec["approx_grad"] is False and rec["fprime"] is None
-            and np.array_equal(res.tovec(False), rec["final_vector"]) and float(info["final_f"]) == rec["final_f"]
-            and len(seen) == rep + 1)
-        outs.append({"final_f": _fr(info["final_f"]), "f_end": _fr(f_end),
-                     "min_entry": min(float(np.min(f)) for f in res.factor_matrices),
-                     "flat": [_fr(v) for f in res.factor_matrices for v in f.ravel(order="F")],
-                     "init_unchanged": all(np.array_equal(x, y) for x, y in zip(init.factor_matrices, M0.factor_matrices)),
-                     "shapes_ok": [f.shape for f in res.factor_matrices] == [f.shape for f in M0.factor_matrices]})
-    finally:
-        optimizers.fmin_l_bfgs_b = orig_scipy
-    after = opt._solver_kwargs
-    restored = after.get("callback") is user_cb and all(after[k] == before[k] or (after[k] is before[k]) for k in before if k not in ("callback", "pgtol"))
-    return {"f0": _fr(f0), "outs": outs, "lb": (None if lb == -np.inf else lb), "callback_restored": bool(restored),
-            "callback_called": len(calls) > 0 if a["callback"] else None, "wrap_ok": bool(wrap_ok)}
+
+def run_lbfgsb_reuse(a):
+    """a sequence of solves (different problems / sizes) on ONE LBFGSB object against the same solves on fresh objects"""
+    import numpy as np
+    from pyttb.gcp import optimizers, fg
+    reused, fresh = [], []
+    shared = _lb_opt(optimizers, a.get("opts", {}), None)
+    before = dict(shared._solver_kwargs)
+    for mode, sink in (("reused", reused), ("fresh", fresh)):
+        for p in a["probs"]:
+            opt = shared if mode == "reused" else _lb_opt(optimizers, a.get("opts", {}), None)
+            try:
+                with ScipySpy([opt]) as spy:
+                    o = _lb_one_solve(np, optimizers, fg, opt, p, spy.seen, None)
+                sink.append({"flat": [o["final_f"]] + [v for f in o["factors"] for row in f for v in row],
+                             "le": Fraction(o["f_end"]) <= Fraction(o["f0"]), "abandoned": o["abandoned"]})
+            except Exception as ex:
+                sink.append({"exc": type(ex).__name__, "msg": str(ex)[:120]})
+    return {"reused": reused, "fresh": fresh, "restored": _restored(shared, before, None),
+            "meta": {"abandoned": any(r.get("abandoned") for r in reused + fresh), "maxiter0": a.get("opts", {}).get("maxiter") == 0}}
+
+
+def lb_scale(o):
+    """one common denominator for every vector / matrix entry and the bound of one observed solve; another for the objective values"""
+    vals = list(o["x0"]) + list(o["x"]) + list(o["weights"]) + list(o["res_weights"]) + [v for f in o["start"] + o["factors"] for row in f for v in row]
+    if o["lb"] is not None:
+        vals.append(o["lb"])
+    L = 1
+    for x in vals:
+        d = Fraction(x).denominator
+        L = L * d // math.gcd(L, d)
+    z = lambda x: int(Fraction(x) * L)
+    fl = 1
+    for x in (o["f0"], o["f_end"], o["final_f"], o["scipy_f"]):
+        d = Fraction(x).denominator
+        fl = fl * d // math.gcd(fl, d)
+    zf = lambda x: int(Fraction(x) * fl)
+    return z, zf
+
+
+def brute_objective(a, factors, weights):
+    """sum over all (unmasked) cells of the loss at the model value — pure Python"""
+    shp = a["shape"]
+    sc = 2.0 ** a.get("dscale", 0)
+    mask = a.get("mask")
+    total = 0.0
+    n = math.prod(shp)
+    for k in range(n):
+        sub, r = [], k
+        for d in shp:
+            sub.append(r % d)
+            r //= d
+        if mask is not None and not mask[k]:
+            continue
+        m = 0.0
+        for c in range(a["R"]):
+            t = float(Fraction(weights[c]))
+            for mode, i in enumerate(sub):
+                t *= float(Fraction(factors[mode][i][c]))
+            m += t
+        x = a["data"][k] * sc
+        if a["obj"] in ("gaussian", "gaussian_lb"):
+            total += (m - x) ** 2
+        else:
+            total += m - x * math.log(m + 1e-10)
+    return total
+
 
 # --------------------------------------------------------------------------------------- brute-force oracle
 def _cell(shape, data, sub):
@@ -387,19 +774,40 @@ def oracle(op, a, o):
         if not (o["lb_ok"] or 0 in o["ret_cands"]):
             return f"returned factor entry {o['min_entry']} below the lower bound"
         return None
-    if op == "lbfgsb":
-        f0 = Fraction(o["f0"])
+    if op in ("lbfgsb", "lbfgsb_final_f"):
         for k, r in enumerate(o["outs"]):
-            if Fraction(r["final_f"]) > f0 or Fraction(r["f_end"]) > f0:
-                return f"L-BFGS-B solve #{k + 1} returned objective {float(Fraction(r['f_end']))} above the starting objective {float(f0)}"
-            if o["lb"] is not None and r["min_entry"] < o["lb"]:
-                return f"factor entry {r['min_entry']} below the lower bound {o['lb']}"
-        if o["outs"][0]["flat"] != o["outs"][1]["flat"]:
+            if op == "lbfgsb_final_f":
+                if Fraction(r["final_f"]) != Fraction(r["f_end"]):
+                    return (f"L-BFGS-B solve #{k + 1} ({r['task']}): info['final_f'] = {float(Fraction(r['final_f']))} is not the objective "
+                            f"{float(Fraction(r['f_end']))} of the returned model (start: {float(Fraction(r['f0']))})")
+                continue
+            if [v for f in r["factors"] for c in range(a["R"]) for v in [row[c] for row in f]] != r["x"]:
+                return f"L-BFGS-B solve #{k + 1} ({r['task']}): the returned model is not the vector scipy returned"
+            proj = r["start"] if r["lb"] is None else [[[max(Fraction(v), Fraction(r["lb"])) for v in row] for row in f] for f in r["start"]]
+            b0, b1 = brute_objective(a, proj, r["weights"]), brute_objective(a, r["factors"], r["res_weights"])
+            if Fraction(r["f_end"]) > Fraction(r["f0"]) and b1 > b0 * (1 + 1e-9) + 1e-300:
+                return f"L-BFGS-B solve #{k + 1} ({r['task']}) returned a model with objective {b1} above the starting objective {b0}"
+            if r["lb"] is not None and any(Fraction(v) < Fraction(r["lb"]) for f in r["factors"] for row in f for v in row):
+                return f"factor entry below the lower bound {r['lb']}"
+        if op == "lbfgsb_final_f":
+            return None
+        if o["outs"][0]["factors"] != o["outs"][1]["factors"]:
             return "second solve on the same LBFGSB object differs from the first identical solve"
         if not o["callback_restored"]:
-            return "the user's callback slot was not restored after the solve"
-        if not o.get("wrap_ok", True):
-            return "LBFGSB.solve: bounds / start vector / callback handed to scipy or the vector read back do not match the model"
+            return "the user's callback slot / the solver options were not restored after the solve"
+        if not all(r["slots_ok"] for r in o["outs"]):
+            return "LBFGSB.solve: bounds / callback handed to scipy do not match the model"
+        return None
+    if op == "lbfgsb_reuse":
+        for k, (r, f) in enumerate(zip(o["reused"], o["fresh"])):
+            if "exc" in r or "exc" in f:
+                return f"solve #{k + 1}: {r.get('exc') or f.get('exc')}: {r.get('msg') or f.get('msg')}"
+            if r["flat"] != f["flat"]:
+                return f"L-BFGS-B solve #{k + 1} on the reused object differs from the same solve on a fresh object"
+            if not r["le"]:
+                return f"L-BFGS-B solve #{k + 1} on the reused object returned a model worse than its start"
+        if not o["restored"]:
+            return "solver options / callback slot not restored after the sequence"
         return None
     if op == "config":
         c, size, nnz = o["conf"], o["size"], o["nnz"]
@@ -423,6 +831,8 @@ def oracle(op, a, o):
         if (c[0] == "semistrat") != (len(o["crng"]) > 0) and not (c[0] == "semistrat" and c[1] == 0):
             return f"correction range {o['crng']} for a {c[0]} sampler"
         return None
+    if op == "step":
+        return step_oracle(a, o)
     if op == "reuse":
         for k, (r, f) in enumerate(zip(o["reused"], o["fresh"])):
             if r != f:
@@ -469,9 +879,31 @@ def _w_empty():
 
 
 
+def _lb_witness_args(opts):
+    return {"shape": [2, 3], "data": [1, 0, 2, 3, 0, 1], "R": 1, "init": [[[1.0], [0.5]], [[0.5], [1.0], [1.5]]],
+            "obj": "gaussian", "callback": False, "mask": None, "opts": opts}
+
+
+def _w_lb_final_f():
+    o = run_lbfgsb(_lb_witness_args({"maxls": 1, "maxiter": 100}))
+    r = o["outs"][0]
+    if Fraction(r["final_f"]) != Fraction(r["f_end"]):
+        return (f"LBFGSB(maxls=1) on the 2x3 witness ({r['task']}): info['final_f'] = {float(Fraction(r['final_f']))}, the returned model "
+                f"has objective {float(Fraction(r['f_end']))}, the start {float(Fraction(r['f0']))}")
+    return None
+
+
+def _w_lb_maxiter0():
+    try:
+        run_lbfgsb(_lb_witness_args({"maxiter": 0}))
+    except Exception as ex:
+        return f"LBFGSB(maxiter=0).solve raises {type(ex).__name__}: {str(ex)[:80]}"
+    return None
+
+
 # only the OPEN findings are replayed as witnesses; the inputs of the repaired ones (A-35, A-36, A-37, A-48, C13-S2) are fixed
 # regression cases in c13.gen_cases
-WITNESSES = {"C13-S3": _w_empty, "A-47": _w_a47, "C13-S1": _w_short}
+WITNESSES = {"C13-S3": _w_empty, "A-47": _w_a47, "C13-S1": _w_short, "C13-L1": _w_lb_final_f, "C13-L2": _w_lb_maxiter0}
 
 
 # --------------------------------------------------------------------------------------- GCPSampler configuration table
